@@ -156,19 +156,23 @@ def _fontspecs():
     prog = PDFStream({"Length1": len(header)}, header)
     pf = {"Type": LIT("Font"), "Subtype": LIT("Type1"), "BaseFont": LIT("PF"), "FirstChar": 65, "Widths": [500, 600],
           "FontDescriptor": {"FontName": LIT("PF"), "FontBBox": [0, 0, 1000, 1000], "FontFile": prog}}
+    # a second font with its own embedded program and a DIFFERENT built-in encoding (65 -> C, 67 -> A): each font keeps its own
+    header2 = b"%!PS-AdobeFont-1.0: PG 001.000\n/Encoding 256 array\n0 1 255 {1 index exch /.notdef put} for\ndup 65 /C put\ndup 67 /A put\nreadonly def\ncurrentfile eexec\n"
+    pg = {"Type": LIT("Font"), "Subtype": LIT("Type1"), "BaseFont": LIT("PG"), "FirstChar": 65, "Widths": [500, 600],
+          "FontDescriptor": {"FontName": LIT("PG"), "FontBBox": [0, 0, 1000, 1000], "FontFile": PDFStream({"Length1": len(header2)}, header2)}}
     pn = {"Type": LIT("Font"), "Subtype": LIT("Type1"), "BaseFont": LIT("PN"), "FirstChar": 65, "Widths": [500, 600], "FontDescriptor": {"FontName": LIT("PN"), "FontBBox": [0, 0, 1000, 1000]}}
     # two uses of one standard-14 font (metrics come from the process-wide table of the library) whose encodings show different glyphs under code 65
     s1 = {"Type": LIT("Font"), "Subtype": LIT("Type1"), "BaseFont": LIT("Helvetica"), "Encoding": {"Differences": [65, LIT("W")]}}
     s2 = {"Type": LIT("Font"), "Subtype": LIT("Type1"), "BaseFont": LIT("Helvetica"), "Encoding": {"Differences": [65, LIT("i")]}}
-    return {"f1": f1, "f2": f2, "t1": t1, "t3": t3, "desc": desc, "pf": pf, "pn": pn, "s1": s1, "s2": s2}
+    return {"f1": f1, "f2": f2, "t1": t1, "t3": t3, "desc": desc, "pf": pf, "pn": pn, "s1": s1, "s2": s2, "pg": pg}
 
 
-FONT_NAMES = ["f1", "f2", "t1", "t3", "pf", "pn", "s1", "s2"]
-FONT_IDS = {"f1": 11, "f2": 12, "t1": 13, "t3": 14, "pf": 15, "pn": 16, "s1": 17, "s2": 18}
+FONT_NAMES = ["f1", "f2", "t1", "t3", "pf", "pn", "s1", "s2", "pg"]
+FONT_IDS = {"f1": 11, "f2": 12, "t1": 13, "t3": 14, "pf": 15, "pn": 16, "s1": 17, "s2": 18, "pg": 19}
 ABS_WIDTHS = {"s1": [0.944, 0.667], "s2": [0.222, 0.667]}                  # Helvetica's AFM widths of W, i and B (codes 65, 66)
 
 
-ABSOLUTE = {"pf": ["B", "A"], "pn": ["A", "B"], "t1": ["B", "B"], "s1": ["W", "B"], "s2": ["i", "B"]}          # text of codes 65, 66 that does not depend on anything but the font's own dictionary
+ABSOLUTE = {"pg": ["C", "PDFUnicodeNotDefined"], "pf": ["B", "A"], "pn": ["A", "B"], "t1": ["B", "B"], "s1": ["W", "B"], "s2": ["i", "B"]}          # text of codes 65, 66 that does not depend on anything but the font's own dictionary
 
 
 def _shared_tables():
@@ -211,6 +215,13 @@ def h4_getfont(ncalls=3, timeout=150, part=None, **kw):
         caching = ex.choice(2, "caching") == 1
         hist = [names[ex.choice(len(names), "h%d" % i)] for i in range(ncalls)]
         ids = FONT_IDS
+        # the histories of one job share this process: a failure is first re-stated as a history that fails from a cold start (this one, or "some other font first")
+        r0 = replay("H4_getfont", {"hist": hist, "caching": caching})
+        if r0 is not None:
+            sc = core.self_contained("C12", "_replay_getfont", {"hist": hist, "caching": caching},
+                                     [{"hist": ([x] + [n] * ncalls)[:max(2, ncalls)], "caching": caching} for n in dict.fromkeys(hist) for x in names if x != n])
+            if sc is not None:
+                ex.require(False, sc[1], hist=sc[0]["hist"], caching=caching, step=0)
         rm = pi.PDFResourceManager(caching=caching)
         before = {k: _snap(v) for k, v in specs.items()}
         tables = _shared_tables()
@@ -239,6 +250,10 @@ def h4_getfont(ncalls=3, timeout=150, part=None, **kw):
         return info
     return core.run_symx("H4_getfont", fn, [pi.PDFResourceManager.get_font], {"fonts": "two Type0 fonts sharing one descendant (only one has ToUnicode), a Type1 and a Type3 font with Differences, two Type1 fonts without Encoding (one with an embedded font program), two uses of standard-14 Helvetica with different Differences",
                                                                             "history": "every sequence of %d get_font calls" % ncalls, "caching": "on/off"}, timeout, concretize=conc, part=part)
+
+
+def _replay_getfont(inp):
+    return replay("H4_getfont", inp)
 
 
 def h5_idempotent(timeout=100, **kw):
